@@ -12,6 +12,7 @@ CONSTANTS
   MaxPush = 0
   Faults = {}
   RespShapes <- RS_ok
+  Abandon = FALSE
   MaxArr = 1
   ArrMenu = {}
 INIT Init
